@@ -702,6 +702,9 @@ func genCert(tseed uint64, signer string) *certSpec {
 	s.extra = genExtra(r, rich)
 	if rich == 2 && r.Intn(10) == 0 { // documented: ExtraExtensions override what the other fields would produce
 		s.kuOverride = 1 + r.Intn(0x1ff)
+		if s.selfSigned { // CheckSignatureFrom lets a certificate vouch for itself only with keyCertSign
+			s.kuOverride |= int(x509.KeyUsageCertSign)
+		}
 		s.extra = append(s.extra, pkix.Extension{Id: asn1.ObjectIdentifier{2, 5, 29, 15}, Critical: true, Value: keyUsageDER(s.kuOverride)})
 	}
 	return s
@@ -1542,6 +1545,10 @@ func phase1(f []string, o *outcome, work **mutWork) string {
 		}
 		o.vIss = chk(p, issuer)
 		o.vOth = chk(p, issB)
+		if os.Getenv("C09_DEBUG") != "" {
+			fmt.Fprintf(os.Stderr, "debug %s selfSigned=%v CheckSignatureFrom=%v CheckSignature=%v ku=%d bc=%v ca=%v der=%x\n", f[1], s.selfSigned,
+				p.CheckSignatureFrom(issuer), issuer.CheckSignature(p.SignatureAlgorithm, p.RawTBSCertificate, p.Signature), p.KeyUsage, p.BasicConstraintsValid, p.IsCA, der)
+		}
 		if o.vIss {
 			*work = &mutWork{der, func(m []byte) bool {
 				c, err := x509.ParseCertificate(m)
